@@ -260,7 +260,7 @@ pub fn run_into(rep: &mut Report, tier: Tier) {
         rep.sub.push(json!({"sub":"waiter-histories","status":"skipped","reason":"socket(AF_INET, SOCK_RAW, IPPROTO_ICMP) is not permitted here"}));
         return;
     }
-    let depth = tier.pick(4usize, 5usize);
+    let depth = tier.pick(4usize, 6usize);
     // raw ICMP sockets see every ICMP packet of the host: one worker, so histories do not hear each other
     let (st, viol, samples) = bfs(&M, depth, Duration::from_secs(tier.pick(40, 900)), 1, &|| {});
     let mut viol = viol;
